@@ -20,15 +20,17 @@ ASSUMPTIONS = ['causal mode needs an operator that is non-trivial on qubits >= i
                'SBRG input is a reduced Hermitian polynomial without identity term (callers strip it; an identity leading term is outside the domain)']
 
 
-def _check_diag(letters, k, i0, causal, what):
+def _check_diag(letters, k, i0, causal, what, be='np'):
     N = len(letters)
-    P = B.np_pauli(letters, k)
+    Bk = B.backend(be)
+    diagonalize = Bk.mods()['c'].diagonalize
+    P = Bk.pauli(letters, k)
     snap = B.snapshot(P)
-    circ = pc.diagonalize(P, i0, causal=causal) if causal else pc.diagonalize(P, i0)
+    circ = diagonalize(P, i0, causal=causal) if causal else diagonalize(P, i0)
     check(B.snapshot(P) == snap, 'diagonalize modified its argument', 'purity')
-    out = B.np_list(letters[None, :], [k])
+    out = Bk.plist(letters[None, :], [k])
     circ.forward(out)
-    ol, ok = B.read_list(out)
+    ol, ok = Bk.read_list(out)
     want = np.zeros(N, dtype=np.int64)
     if causal:
         want[:i0] = letters[:i0]
@@ -39,9 +41,9 @@ def _check_diag(letters, k, i0, causal, what):
     if causal:
         # acts only on qubits >= i0: generators below i0 fixed, generators at/after i0 stay at/after i0
         idn = ref.RefClifford.identity(N)
-        gens = B.np_list(idn.L, idn.K)
+        gens = Bk.plist(idn.L, idn.K)
         circ.forward(gens)
-        gl, gk = B.read_list(gens)
+        gl, gk = Bk.read_list(gens)
         for j in range(2 * N):
             q = j // 2
             if q < i0:
@@ -50,21 +52,26 @@ def _check_diag(letters, k, i0, causal, what):
                 check((gl[j][:i0] == 0).all(), '%s: causal circuit spreads %s onto earlier qubits: %s' % (what, ref.show(idn.L[j], 0), ref.show(gl[j], gk[j])), 'causal-spread')
     # the circuit is a deterministic Clifford circuit: backward undoes forward
     circ.backward(out)
-    C.expect_list(B.read_list(out), (letters[None, :], np.array([k])), '%s: backward(forward(P))' % what, 'diag-roundtrip')
+    C.expect_list(Bk.read_list(out), (letters[None, :], np.array([k])), '%s: backward(forward(P))' % what, 'diag-roundtrip')
 
 
 def f_diag_enum(case):
     N, i0, causal = case['N'], case['i0'], case['causal']
     l, k = ref.parse(case['p'])
-    _check_diag(l, k, i0, causal, 'enum')
+    _check_diag(l, k, i0, causal, 'enum', case.get('be', 'np'))
     w = int((l != 0).sum())
     already = w == 1 and l[i0] == 3
     return {'nt': w >= 2 and not already, 'labels': ['N=%d' % N, 'causal' if causal else 'global', 'w=%d' % w]}
 
 
-def enum_diag(tier, shard, nshards):
+def enum_diag_torch(tier, shard, nshards):
+    for c in enum_diag(tier, shard, nshards, Ns=(1, 2) if tier == 'quick' else (1, 2, 3)):
+        yield dict(c, be='torch')
+
+
+def enum_diag(tier, shard, nshards, Ns=(1, 2, 3)):
     n = 0
-    for N in (1, 2, 3):
+    for N in Ns:
         for s in itertools.product('IXYZ', repeat=N):
             if all(c == 'I' for c in s):
                 continue
@@ -95,28 +102,38 @@ def st_diag(hiN):
         {'p': gen.st_pauli(N, nonidentity=True), 'i0': st.integers(0, 7), 'causal': st.booleans()}))
 
 
+def _group(be, S):
+    l, k, r = B.backend(be).read_state(S)
+    why = ref.tableau_invariant(l, k, r)
+    check(why is None, 'tableau invariant broken: %s' % why, 'invariant')
+    N = l.shape[1]
+    return ref.RefGroup(l[r:N], k[r:N]), r
+
+
 def f_diag_state(case):
     N = case['N']
+    be = case.get('be', 'np')
+    Bk = B.backend(be)
     stc = {'rows': case['rows'], 'r': 0}
-    S, c = C.dec_state('np', stc)
+    S, c = C.dec_state(be, stc)
     snap = B.snapshot(S)
-    circ = pc.diagonalize(S)
+    circ = Bk.mods()['c'].diagonalize(S)
     check(B.snapshot(S) == snap, 'diagonalize(state) modified the state', 'purity')
     T = S.copy()
     circ.forward(T)
-    G, r = B.group_of_state(T)
+    G, r = _group(be, T)
     zero = ref.RefGroup(ref.RefClifford.identity(N).L[1::2], np.zeros(N, dtype=np.int64))
     check(r == 0 and G.canonical() == zero.canonical(), 'diagonalize(state).forward(state) has stabilizers %s, expected |0..0>' % (G.canonical(),), 'state-diag')
-    Z = pc.zero_state(N)
+    Z = Bk.mods()['s'].zero_state(N)
     circ.backward(Z)
-    G2, r2 = B.group_of_state(Z)
+    G2, r2 = _group(be, Z)
     G0 = C.state_group(stc)
     check(r2 == 0 and G2.canonical() == G0.canonical(), 'backward(zero_state) has stabilizers %s, expected %s' % (G2.canonical(), G0.canonical()), 'state-encode')
     return {'nt': any(x.startswith('-') for x in case['rows'][1::2]) and N >= 2, 'labels': ['N=%d' % N]}
 
 
-def st_diag_state(hiN):
-    return st.integers(1, hiN).flatmap(lambda N: st.fixed_dictionaries({'N': st.just(N), 'rows': gen.st_clifford_rows(N)}))
+def st_diag_state(hiN, be='np'):
+    return st.integers(1, hiN).flatmap(lambda N: st.fixed_dictionaries({'be': st.just(be), 'N': st.just(N), 'rows': gen.st_clifford_rows(N)}))
 
 
 def _ham(terms):
@@ -259,5 +276,7 @@ FACETS = [
     Facet('np/sbrg-commuting', f_sbrg_commuting, strategy=lambda t: st_sbrg_comm(4 if t == 'quick' else 6), examples={'quick': 600, 'thorough': 30000}, shards={'quick': 2, 'thorough': 8}),
     Facet('np/sbrg-general', f_sbrg_general, strategy=lambda t: st_sbrg_gen(4), examples={'quick': 500, 'thorough': 20000}, shards={'quick': 2, 'thorough': 8}),
     Facet('np/kernels', f_kernels, strategy=lambda t: st_kernels('np', 8), examples={'quick': 1500, 'thorough': 50000}, shards={'quick': 1, 'thorough': 4}),
+    Facet('torch/diagonalize-exhaustive', f_diag_enum, kind='enum', cases=enum_diag_torch, exhaustive=lambda t: True, shards={'quick': 2, 'thorough': 8}, backend='torch'),
+    Facet('torch/diagonalize-state', f_diag_state, strategy=lambda t: st_diag_state(4, 'torch'), examples={'quick': 150, 'thorough': 6000}, backend='torch'),
     Facet('torch/kernels', f_kernels, strategy=lambda t: st_kernels('torch', 6), examples={'quick': 300, 'thorough': 10000}, backend='torch'),
 ]
